@@ -14,6 +14,7 @@ import (
 	"github.com/cloudwego/gopkg/container/strmap"
 	"github.com/cloudwego/gopkg/protocol/thrift"
 	"github.com/cloudwego/gopkg/protocol/thrift/base"
+	"github.com/cloudwego/gopkg/protocol/thrift/unknownfields"
 	"github.com/cloudwego/gopkg/protocol/ttheader"
 
 	"verifharness/doubles"
@@ -418,6 +419,59 @@ func newSharedMaps(r *rand.Rand, n int) *sharedMaps {
 	return m
 }
 
+type c14HolderA struct {
+	A              int
+	_unknownFields []byte
+}
+
+type c14HolderB struct {
+	A, B, C        string
+	D              []int
+	_unknownFields []byte
+	E              int
+}
+
+// unknown fields of two different struct types (the bytes sit at different field positions) fetched by many
+// goroutines at once: each call must return the tree of the bytes its own struct holds
+func (s *gState) cycleUnknownFields(i int) {
+	mk := func(salt int) ([]byte, int64, string) {
+		x := int64(s.g)<<40 | int64(i)<<16 | int64(salt)
+		str := string(taggedBytes(s.g, i, salt, 1+s.r.Intn(20)))
+		b := ref.EncFieldBegin(nil, ref.I64, int16(100+salt))
+		b = ref.EncI64(b, x)
+		b = ref.EncFieldBegin(b, ref.STRING, int16(200+salt))
+		b = ref.EncBinary(b, []byte(str))
+		return b, x, str
+	}
+	for rep := 0; rep < 6; rep++ {
+		ba, xa, sa := mk(rep * 2)
+		bb, xb, sb := mk(rep*2 + 1)
+		var fa, fb []unknownfields.UnknownField
+		var ea, eb error
+		if s.r.Intn(2) == 0 {
+			fa, ea = unknownfields.GetUnknownFields(&c14HolderA{A: 1, _unknownFields: ba})
+			fb, eb = unknownfields.GetUnknownFields(&c14HolderB{A: "a", _unknownFields: bb})
+		} else {
+			fb, eb = unknownfields.GetUnknownFields(&c14HolderB{A: "a", _unknownFields: bb})
+			fa, ea = unknownfields.GetUnknownFields(&c14HolderA{A: 1, _unknownFields: ba})
+		}
+		ok := func(f []unknownfields.UnknownField, e error, x int64, str string) bool {
+			if e != nil || len(f) != 2 {
+				return false
+			}
+			v0, ok0 := f[0].Value.(int64)
+			v1, ok1 := f[1].Value.(string)
+			return ok0 && ok1 && v0 == x && v1 == str
+		}
+		if !ok(fa, ea, xa, sa) || !ok(fb, eb, xb, sb) {
+			s.fail("concurrent-unknown-fields", i, "GetUnknownFields returned a tree that is not the one of the struct's own bytes (errors: %v, %v)", ea, eb)
+			return
+		}
+		runtime.Gosched()
+	}
+	s.cycles["unknown-fields"]++
+}
+
 // every goroutine loads and queries maps of its own (instances are never shared here): a load of one
 // instance must not disturb another instance that is being loaded or queried at the same time
 func (s *gState) cycleOwnMaps(i int) {
@@ -584,7 +638,9 @@ func monC14(c *drv.Ctx) {
 				// the very first action of every goroutine is a lookup on the freshly loaded maps
 				st.cycleSharedMaps(0, maps[st.g%len(maps)])
 				for i := 1; i <= g.iters && st.failure == nil; i++ {
-					switch st.r.Intn(9) {
+					switch st.r.Intn(10) {
+					case 9:
+						st.cycleUnknownFields(i)
 					case 8:
 						st.cycleOwnMaps(i)
 					case 7:
